@@ -347,6 +347,240 @@ inline RM sym_from_spectrum(const LM& Q, const std::vector<ld>& lam)
 	return S;
 }
 
+
+// ---------------------------------------------------------------------------------------------
+// History + model monitor for Matrix objects (C04 / C05): a pool of library objects is driven through a random sequence of mutating calls
+// (operator=, +=, -=, element writes, Assign, Resize, Delete_Row/Column, copy construction) while a reference model (RM) receives the same
+// mutations; after every step read-only queries on the used object are compared with the definitions evaluated on the model.  A cached or
+// memoised quantity that is not invalidated by one of the mutating spellings shows up as a mismatch.
+inline void matrix_history_case(vf::Rng& rng, uint64_t index, bool inverse_queries)
+{
+	using namespace vf;
+	struct Obj
+	{
+		libphysica::Matrix M;
+		RM ref;
+	};
+	auto random_rm = [&](unsigned r, unsigned c) {
+		RM A(r, c);
+		for(auto& x : A.a)
+			x = rng.coin(0.2) ? (double) rng.irange(-3, 3) : rng.normal();
+		if(inverse_queries && r == c)
+			for(unsigned i = 0; i < r; i++)
+				A(i, i) += (A(i, i) >= 0 ? 1.0 : -1.0) * r;	  // well conditioned, so that Inverse is a valid request
+		return A;
+	};
+	auto dim = [&]() { return (unsigned) rng.irange(1, inverse_queries ? 4 : 5); };
+	std::vector<Obj> pool;
+	{
+		unsigned r = dim(), c = inverse_queries ? r : dim();
+		RM A = random_rm(r, c);
+		pool.push_back({to_lib(A), A});
+	}
+	set_params(J().i("steps", 60).i("inverse_queries", inverse_queries).i("first_rows", pool[0].ref.r).i("first_columns", pool[0].ref.c));
+	hash_param_u(index);
+	mark_nontrivial();
+	std::string trail;
+	for(int step = 0; step < 60; step++)
+	{
+		size_t oi = rng.below(pool.size());
+#define o pool[oi]	  // by index: the pool may reallocate when a copy joins it
+		int op	= rng.irange(0, 9);
+		char tag[64];
+		switch(op)
+		{
+			case 0: {	// assignment of a new value (possibly another shape)
+				unsigned r = dim(), c = (inverse_queries || rng.coin(0.5)) ? r : dim();
+				RM A = random_rm(r, c);
+				o.M	 = to_lib(A);
+				o.ref = A;
+				snprintf(tag, sizeof tag, "=(%ux%u);", r, c);
+				break;
+			}
+			case 1:
+			case 2: {
+				RM B = random_rm(o.ref.r, o.ref.c);
+				libphysica::Matrix LB = to_lib(B);
+				if(op == 1)
+					o.M += LB;
+				else
+					o.M -= LB;
+				for(size_t i = 0; i < B.a.size(); i++)
+					o.ref.a[i] = (op == 1) ? o.ref.a[i] + B.a[i] : o.ref.a[i] - B.a[i];
+				snprintf(tag, sizeof tag, "%s;", op == 1 ? "+=" : "-=");
+				break;
+			}
+			case 3: {
+				unsigned i = (unsigned) rng.below(o.ref.r), j = (unsigned) rng.below(o.ref.c);
+				double v   = rng.normal() * 3;
+				o.M[i][j]  = v;
+				o.ref(i, j) = v;
+				snprintf(tag, sizeof tag, "[%u][%u]=;", i, j);
+				break;
+			}
+			case 4: {
+				unsigned r = dim(), c = (inverse_queries || rng.coin(0.5)) ? r : dim();
+				double v   = inverse_queries ? 0.0 : rng.normal();
+				o.M.Assign((int) r, (int) c, v);
+				o.ref = RM(r, c, v);
+				if(inverse_queries)
+					for(unsigned i = 0; i < r; i++)
+					{
+						double d  = rng.uni(1, 3) * rng.sign();
+						o.M[i][i] = d, o.ref(i, i) = d;
+					}
+				snprintf(tag, sizeof tag, "Assign(%u,%u);", r, c);
+				break;
+			}
+			case 5: {
+				unsigned r = dim(), c = inverse_queries ? r : dim();
+				RM N(r, c, 0.0);
+				for(unsigned i = 0; i < std::min(r, o.ref.r); i++)
+					for(unsigned j = 0; j < std::min(c, o.ref.c); j++)
+						N(i, j) = o.ref(i, j);
+				o.M.Resize((int) r, (int) c);
+				if(inverse_queries)
+					for(unsigned i = 0; i < r; i++)
+						if(N(i, i) == 0.0)
+						{
+							double d  = rng.uni(1, 3);
+							o.M[i][i] = d, N(i, i) = d;
+						}
+				o.ref = N;
+				snprintf(tag, sizeof tag, "Resize(%u,%u);", r, c);
+				break;
+			}
+			case 6:
+			case 7: {
+				if(inverse_queries || o.ref.r < 2 || o.ref.c < 2)
+				{
+					snprintf(tag, sizeof tag, "-;");
+					break;
+				}
+				bool row   = op == 6;
+				unsigned k = (unsigned) rng.below(row ? o.ref.r : o.ref.c);
+				RM N(row ? o.ref.r - 1 : o.ref.r, row ? o.ref.c : o.ref.c - 1);
+				for(unsigned i = 0, ii = 0; i < o.ref.r; i++)
+				{
+					if(row && i == k)
+						continue;
+					for(unsigned j = 0, jj = 0; j < o.ref.c; j++)
+					{
+						if(!row && j == k)
+							continue;
+						N(ii, jj++) = o.ref(i, j);
+					}
+					ii++;
+				}
+				if(row)
+					o.M.Delete_Row(k);
+				else
+					o.M.Delete_Column(k);
+				o.ref = N;
+				snprintf(tag, sizeof tag, "%s(%u);", row ? "Delete_Row" : "Delete_Column", k);
+				break;
+			}
+			case 8: {	// copy construction: the copy joins the pool
+				Obj c {libphysica::Matrix(pool[oi].M), pool[oi].ref};
+				if(pool.size() < 4)
+					pool.push_back(c);
+				else
+					pool[1 + rng.below(pool.size() - 1)] = c;
+				snprintf(tag, sizeof tag, "copy;");
+				break;
+			}
+			default: {	 // assignment between pool members
+				size_t a = rng.below(pool.size()), b = rng.below(pool.size());
+				if(a != b)
+				{
+					pool[a].M	= pool[b].M;
+					pool[a].ref = pool[b].ref;
+				}
+				snprintf(tag, sizeof tag, "pool=;");
+				break;
+			}
+		}
+		if(trail.size() < 300)
+			trail += tag;
+		// ---- queries on a random pool member (often the one just mutated)
+		Obj& q		   = rng.coin(0.7) ? pool[oi] : pool[rng.below(pool.size())];
+#undef o
+		const RM& R	   = q.ref;
+		auto hj		   = [&] { return J().i("step", step).str("history", trail).i("rows", R.r).i("columns", R.c).vec("model_row_major", R.a); };
+		bool shape_ok  = q.M.Rows() == R.r && q.M.Columns() == R.c;
+		require("history-shape-follows-the-mutations", shape_ok, [&] { return hj().i("Rows", q.M.Rows()).i("Columns", q.M.Columns()); });
+		if(!shape_ok)
+			return;
+		const libphysica::Matrix& CM = q.M;
+		bool entries = true;
+		for(unsigned i = 0; i < R.r; i++)
+			for(unsigned j = 0; j < R.c; j++)
+				entries = entries && same_bits(CM[i][j], R(i, j));
+		require("history-entries-follow-the-mutations", entries, hj);
+		if(!inverse_queries)
+		{
+			unsigned i = (unsigned) rng.below(R.r), j = (unsigned) rng.below(R.c);
+			std::vector<double> row = from_lib(q.M.Return_Row(i)), col = from_lib(q.M.Return_Column(j));
+			bool ok = row.size() == R.c && col.size() == R.r;
+			for(unsigned k = 0; ok && k < R.c; k++)
+				ok = same_bits(row[k], R(i, k));
+			for(unsigned k = 0; ok && k < R.r; k++)
+				ok = same_bits(col[k], R(k, j));
+			require("history-return-row-and-column", ok, [&] { return hj().i("row", i).i("column", j).vec("Return_Row", row).vec("Return_Column", col); });
+			RM T = from_lib(q.M.Transpose());
+			bool okt = T.r == R.c && T.c == R.r;
+			for(unsigned a = 0; okt && a < R.r; a++)
+				for(unsigned b = 0; okt && b < R.c; b++)
+					okt = same_bits(T(b, a), R(a, b));
+			require("history-transpose", okt, hj);
+			ld n2 = 0;
+			for(double x : R.a)
+				n2 += (ld) x * x;
+			judge("history-norm", (double) fabsl((ld) q.M.Norm() - sqrtl(n2)), 8 * R.a.size() * EPS * (double) sqrtl(n2) + 1e-300, [&] { return hj().d("Norm", q.M.Norm()); });
+			if(R.r == R.c)
+			{
+				ld tr = 0;
+				for(unsigned a = 0; a < R.r; a++)
+					tr += R(a, a);
+				ld sc = 0;
+				for(unsigned a = 0; a < R.r; a++)
+					sc += fabsl((ld) R(a, a));
+				judge("history-trace", (double) fabsl((ld) q.M.Trace() - tr), 8 * R.r * EPS * (double) sc + 1e-300, [&] { return hj().d("Trace", q.M.Trace()); });
+				bool sym = true, asym = true, diag = true;
+				for(unsigned a = 0; a < R.r; a++)
+					for(unsigned b = 0; b < R.c; b++)
+					{
+						sym	 = sym && R(a, b) == R(b, a);
+						asym = asym && R(a, b) == -R(b, a);
+						diag = diag && (a == b || R(a, b) == 0.0);
+					}
+				require("history-predicates", q.M.Symmetric() == sym && q.M.Antisymmetric() == asym && q.M.Diagonal() == diag && q.M.Square(), [&] { return hj().i("Symmetric", q.M.Symmetric()).i("Antisymmetric", q.M.Antisymmetric()).i("Diagonal", q.M.Diagonal()); });
+			}
+			else
+				require("history-predicates", !q.M.Square() && !q.M.Symmetric() && !q.M.Diagonal(), hj);
+			libphysica::Matrix same = to_lib(R);
+			require("history-equality-with-a-fresh-matrix", q.M == same, hj);
+		}
+		else if(R.r == R.c)
+		{
+			LM W   = widen(R), X;
+			ld det = det_expand(W), dgj;
+			int ex;
+			double d = q.M.Determinant();
+			judge("history-determinant", (double) fabsl((ld) d - det), 8 * R.r * EPS * (double) perm_abs(W) + 1e-300, [&] { return hj().d("Determinant", d).d("reference", (double) det); });
+			require("history-invertible", q.M.Invertible() == (d != 0.0), [&] { return hj().d("Determinant", d).i("Invertible", q.M.Invertible()); });
+			if(gj_inverse(W, X, dgj, ex) && fro(W) * fro(X) < 1e8L && d != 0.0)
+			{
+				LM XL = widen(from_lib(q.M.Inverse()));
+				bool okshape = XL.r == R.r && XL.c == R.c;
+				require("history-inverse-shape", okshape, hj);
+				if(okshape)
+					judge("history-inverse", (double) (fro_diff(XL, X) / fro(X)), 16 * R.r * (double) (fro(W) * fro(X)) * EPS, [&] { return hj().d("kappa_F", (double) (fro(W) * fro(X))); });
+			}
+		}
+	}
+}
+
 inline std::string shape_str(unsigned r, unsigned c) { return std::to_string(r) + "x" + std::to_string(c); }
 
 inline void hash_matrix(const RM& A)
